@@ -266,7 +266,16 @@ class QuadricTensor(ProjectiveTensor, ABC):
     @property
     def dual(self) -> QuadricTensor:
         """The dual quadric."""
-        return type(self)(inv(self.array), is_dual=not self.is_dual, copy=False)
+        # the specialised classes (Circle, Ellipse, Sphere, Cone, ...) are constructed from geometric parameters
+        # and not from a matrix, so the dual is returned as a general conic / quadric
+        cls: type[QuadricTensor]
+        if self.free_indices > 0:
+            cls = QuadricCollection
+        elif self.dim == 2:
+            cls = Conic
+        else:
+            cls = Quadric
+        return cls(inv(self.array), is_dual=not self.is_dual, copy=False)
 
 
 class Quadric(QuadricTensor, BoundTensor):
